@@ -1,6 +1,6 @@
 """C03: check configuration (PROP) and MANIFEST texts (META)."""
 PROP = {
-    "lean_modules": ["ConduitModel.Props.C03", "ConduitModel.Facts.C03"],
+    "lean_modules": ["ConduitModel.Props.C03", "ConduitModel.Facts.C03", "ConduitModel.Props.EndToEnd"],
     "jobs": [
         {"harness": "h_srcack", "comp": "srccrash", "driver": "srcack", "n_quick": 300, "n_thorough": 4000, "timeout": 2400,
          "relevant": lambda case: "fail:" in case["model"] or case["impl"] != "ok",
@@ -16,7 +16,8 @@ PROP = {
                 "sequence-number form (C03_crash_safe_seq) for every event list without hypothesis",
     "assumptions": ["atomic, durable Commit of the database (a crash sees the old or the new snapshot, never a torn one)",
                     "SIGKILL is simulated in-process: the old incarnation's later effects are discarded, not prevented",
-                    "engine-side hypothesis ReachO is what C01/C04 establish"],
+                    "engine-side hypothesis ReachO: discharged for arch v2 by Props/EndToEnd (hypothesis left: NoEmptyAckCall, checked on every "
+                    "funnel run); for v1 it is what C04_v1_* establish"],
 }
 
 META = {
@@ -25,7 +26,23 @@ META = {
             "position was handled, every position ever acked to the plugin is at or before it (pruned <= store <= handled), a "
             "restart reopens exactly at the store and every unhandled record lies after it (C03_restart_no_skip). Tied to the code "
             "by crash/restart traces of the real Source/Persister/Service and a real restart on every commit snapshot.",
-    "note": "Proved about the model; engine side enters as hypothesis ReachO. Torn DB writes and kill timing inside one store call "
+    "note": "Proved about the model. The engine side used to enter as the bare hypothesis ReachO; for arch v2 it is now DISCHARGED by "
+            "composition (Props/EndToEnd.lean): C03_v2_engine_feeds_connector (every run of the engine model acknowledges, call by call, exactly "
+            "the records read after the open position, from C04_v2_run_acks_prefix), ReachO.incarnation / .incarnations (Proofs/SrcAckEngine: "
+            "M3 needs nothing else, for any number of crashes and restarts), C03_v2_composed_crash_safe, C03_composed_history_crash_safe; the "
+            "one engine-side hypothesis left is NoEmptyAckCall (no Source.Ack call with an empty position list), which the funnel job checks on "
+            "every implementation run (the source fake flags such a call; the real connector.Source.Ack would index p[len(p)-1]). For the v1 "
+            "engine ReachO remains the hypothesis that C04_v1_ack_sequence_is_prefix establishes. Torn DB writes and kill timing inside one store call "
             "are the store's contract. Needs F1 fixed (otherwise the plugin is told more than the store holds).",
     "technique": "Lean 4 invariant proofs (every state = crash point) + snapshot-and-restart correspondence against the real code",
 }
+
+# engine side of the composition (Props/EndToEnd.lean): the arch-v2 engine's Source.Ack calls. The event-log equality with the engine
+# model ties C04_v2_run_acks_prefix to the real funnel.Worker; the source fake flags an empty Source.Ack call (NoEmptyAckCall).
+from funnel_common import funnel_job
+_fj = funnel_job("C03", 3000, 60000)
+_fj["relevant"] = lambda case: "X[empty-ack-call]" in case["impl"]
+PROP["jobs"].append(_fj)
+PROP["lean_modules"] += ["ConduitModel.Props.C04"]
+PROP["rule"] += (" || funnel: see C04/C09 (one case = tree, window, batches, plugin scripts); relevant to C03 = the engine called Source.Ack "
+                 "with an empty position list")
